@@ -150,6 +150,7 @@ func cmdCheck(args []string) int {
 	tier := fs.String("tier", os.Getenv("VERIF_TIER"), "")
 	workers := fs.Int("workers", 16, "")
 	only := fs.String("only", "", "run only harnesses whose name contains this")
+	solver := fs.String("solver", "z3-new", "deciding solver: z3-new (5.1.0), z3 (4.8.12) or cvc5")
 	fs.Parse(args)
 	if *tier == "" {
 		*tier = "quick"
@@ -166,7 +167,7 @@ func cmdCheck(args []string) int {
 		return 2
 	}
 	t0 := time.Now()
-	c := &checker{prop: prop, tier: *tier, seed: seed, repo: *repo, verif: *verif, workers: *workers, only: *only}
+	c := &checker{prop: prop, tier: *tier, seed: seed, repo: *repo, verif: *verif, workers: *workers, only: *only, solver: *solver}
 	code := c.run()
 	c.writeEvidence(time.Since(t0), code)
 	return code
@@ -180,6 +181,7 @@ type checker struct {
 	verif   string
 	workers int
 	only    string
+	solver  string
 
 	env     *env
 	world   *exec.World
@@ -260,7 +262,7 @@ func (c *checker) run() int {
 		go func() {
 			defer wg.Done()
 			for i := range ch {
-				results[i] = w.RunJob(jobs[i].spec, exec.JobOpts{Solver: "z3", TimeoutMS: 60000, MaxVisits: jobs[i].h.MaxVisits})
+				results[i] = w.RunJob(jobs[i].spec, exec.JobOpts{Solver: c.solver, TimeoutMS: 60000, MaxVisits: jobs[i].h.MaxVisits})
 			}
 		}()
 	}
